@@ -6,8 +6,11 @@
   * `request_cookies_view_roundtrip` : assigning representable pairs to `request.cookies` and reading the view back gives the same pairs
   * `view_writeback_idempotent`      : for ANY Cookie header values, writing the view's current value back and reading again
                                        gives the same pairs
+  Form view: `form_view_roundtrip` (content type reset to the bare form type, any charset dropped; urllib and the text codec as parameters).
+  Set-Cookie: `set_cookie_header_roundtrip`, `set_cookie_roundtrip`.
   Query view: `query_view_roundtrip` (urllib's urlencode / parse_qsl as parameters with the law parse_qsl (urlencode ps) = ps).
-  Multipart: the full statement `MultipartRoundtrips` is false for the code — `multipart_roundtrip_counterexample` (F-C34a).
+  Multipart: the full statement `MultipartRoundtrips` is false for the code — `multipart_roundtrip_counterexample` (F-C34a);
+  `multipart_roundtrip_partial` proves the round trip under the guards (induction over the part list).
 -/
 import MitmVerif.Model.C34
 namespace MitmVerif.Props.C34
@@ -261,6 +264,35 @@ theorem query_view_roundtrip (U : UrlCodec) (hlaw : ∀ ps, U.parseQsl (U.urlenc
   refine ⟨hlaw ps, rfl, rfl, rfl, ?_⟩
   simp [getQuery, setQuery, hlaw]
 
+/-! ### urlencoded form view (urllib and the text codec as parameters) -/
+
+/-- **C34 (form view).** Laws: `parse_qsl (urlencode ps) = ps`; the bare form content type decodes the ASCII bytes of an urlencoded
+    text back to that text; urlencode never writes a parameter without `=`.  Guard: the existing body, as the setter reads it, has no
+    parameter without `=` (otherwise the pair ('','') is erased: F-C34e).  Then, whatever Content-Type the request carried before
+    (any charset parameter included): the view reads back the assigned pairs, the header is the bare form type, and writing the
+    view's current value back leaves the message as it is. -/
+theorem form_view_roundtrip (L : FormLib) (m : FormMsg) (ps : List (Str × Str))
+    (hlaw : ∀ qs, L.U.parseQsl (L.U.urlencode qs) = qs)
+    (hdec : ∀ qs, L.getText (some formCT) (L.encodeAscii (L.U.urlencode qs)) = L.U.urlencode qs)
+    (hnobare : ∀ qs, bareStyle (L.U.urlencode qs) = false)
+    (hguard : bareStyle (L.getText (some formCT) m.body) = false) :
+    getForm L (setForm L m ps) = ps ∧ (setForm L m ps).ct = some formCT ∧
+      setForm L (setForm L m ps) (getForm L (setForm L m ps)) = setForm L m ps := by
+  have hct : hasSub formCT (lower ((some formCT : Option Str).getD [])) = true := by decide +kernel
+  have henc : ∀ sim, bareStyle sim = false → encodeForm L.U ps sim = L.U.urlencode ps := by
+    intro sim h; simp [encodeForm, h]
+  have hset : setForm L m ps = { ct := some formCT, body := L.encodeAscii (L.U.urlencode ps) } := by
+    simp [setForm, henc _ hguard]
+  have hget : getForm L (setForm L m ps) = ps := by
+    rw [hset]; simp only [getForm, hct, if_true]; rw [hdec, hlaw]
+  refine ⟨hget, by rw [hset], ?_⟩
+  rw [hget, hset]
+  simp [setForm, encodeForm, hdec, hnobare]
+
+/-- the style imitation is not vacuous: with a bare parameter in the existing body the pair ('','') is erased (F-C34e) -/
+example : dropTrailingEq (replEqAmp (S "a=1&=&b=&=")) = S "a=1&&b&" ∧ bareStyle (S "a&b=2") = true ∧ bareStyle (S "a=1&b=2") = false ∧
+    bareStyle [] = false := by decide +kernel
+
 /-! ### multipart: the full statement is false -/
 
 /-- the full statement for multipart forms (keys non-empty; the guessed content types are arbitrary) -/
@@ -460,6 +492,321 @@ example : parseSetCookie (S "sid=abc; Path=/; HttpOnly; expires=Thu, 01 Jan 2030
 -- the guard matters: an unquoted path value holding `;` is split (F-C34f)
 example : parseSetCookie (formatSetCookie [(S "a", some (S "b")), (S "path", some (S "/x;y"))]) ≠
     [[(S "a", some (S "b")), (S "path", some (S "/x;y"))]] := by decide +kernel
+
+/-! ### multipart: the guarded round trip -/
+
+/-- the delimiter line -/
+def delim (b : Bytes) : Bytes := B "--" ++ b
+def cdLine (k : Bytes) : Bytes := B "Content-Disposition: form-data; name=\"" ++ k ++ [34]
+def ctLine (c : Bytes) : Bytes := B "Content-Type: " ++ c
+/-- what `encode_multipart` writes for one part after its delimiter line: six CRLF-terminated lines
+    (empty, Content-Disposition, Content-Type, empty, the value, and the encoder's extra empty line) -/
+def piece (k v c : Bytes) : Bytes := [[], cdLine k, ctLine c, [], v, []].flatMap (· ++ [13, 10])
+
+/-- the delimiter does not start anywhere inside `p` when `p` is followed by the delimiter -/
+def NoEarly (sep : Bytes) : Bytes → Prop
+  | [] => True
+  | c :: p => sep.isPrefixOf (c :: p ++ sep) = false ∧ NoEarly sep p
+
+private theorem B_dd : B "--" = [45, 45] := by decide +kernel
+private theorem B_last : B "--\r\n" = [45, 45, 13, 10] := by decide +kernel
+private theorem B_name : B "name=\"" = [110, 97, 109, 101, 61, 34] := by decide +kernel
+private theorem B_ct : B "Content-Type: " = [67, 111, 110, 116, 101, 110, 116, 45, 84, 121, 112, 101, 58, 32] := by decide +kernel
+private theorem B_cd : B "Content-Disposition: form-data; name=\"" = [67, 111, 110, 116, 101, 110, 116, 45, 68, 105, 115, 112, 111, 115,
+    105, 116, 105, 111, 110, 58, 32, 102, 111, 114, 109, 45, 100, 97, 116, 97, 59, 32, 110, 97, 109, 101, 61, 34] := by decide +kernel
+
+private def bodyOf (b : Bytes) : List (Bytes × Bytes × Bytes) → Bytes
+  | [] => delim b ++ B "--\r\n"
+  | p :: ps => delim b ++ piece p.1 p.2.1 p.2.2 ++ bodyOf b ps
+
+private theorem joinCRLF_cons (x : Bytes) (r : List Bytes) (h : r ≠ []) : joinCRLF (x :: r) = x ++ 13 :: 10 :: joinCRLF r := by
+  cases r with
+  | nil => exact absurd rfl h
+  | cons y r => rfl
+
+private theorem join_partLines (b : Bytes) (parts : List (Bytes × Bytes × Bytes)) (hk : ∀ p ∈ parts, p.1 ≠ []) :
+    joinCRLF (partLines b parts ++ [B "--" ++ b ++ B "--\r\n"]) = bodyOf b parts := by
+  induction parts with
+  | nil => simp [partLines, joinCRLF, bodyOf, delim]
+  | cons p ps ih =>
+    obtain ⟨k, v, c⟩ := p
+    have hk0 : k ≠ [] := hk (k, v, c) (by simp)
+    have ih' := ih (fun q hq => hk q (List.mem_cons_of_mem _ hq))
+    have hne : partLines b ps ++ [B "--" ++ b ++ B "--\r\n"] ≠ [] := by simp
+    simp only [partLines, hk0, ne_eq, not_false_eq_true, if_true, List.cons_append, List.nil_append, joinCRLF]
+    rw [ih']
+    simp [bodyOf, piece, delim, cdLine, ctLine]
+
+/-! #### bytes.split -/
+private theorem isPrefixOf_append (sep x rest : Bytes) (h : sep.length ≤ x.length) :
+    sep.isPrefixOf (x ++ rest) = sep.isPrefixOf x := by
+  induction sep generalizing x with
+  | nil => simp
+  | cons a sep ih =>
+    cases x with
+    | nil => simp at h
+    | cons y x =>
+      simp only [List.cons_append, List.isPrefixOf]
+      rw [ih x (by simpa using h)]
+
+private theorem isPrefixOf_self_append (sep rest : Bytes) : sep.isPrefixOf (sep ++ rest) = true := by
+  induction sep with
+  | nil => simp
+  | cons a sep ih => simp [List.isPrefixOf, ih]
+
+private theorem splitOnF_piece (sep : Bytes) (hs : sep ≠ []) (p : Bytes) : ∀ (f : Nat) (cur rest : Bytes), NoEarly sep p →
+    (p ++ sep ++ rest).length < f →
+    ∃ f', rest.length < f' ∧ splitOnF f sep cur (p ++ sep ++ rest) = (cur ++ p) :: splitOnF f' sep [] rest := by
+  induction p with
+  | nil =>
+    intro f cur rest _ hf
+    cases f with
+    | zero => omega
+    | succ f =>
+      obtain ⟨a, sep', rfl⟩ := List.exists_cons_of_ne_nil hs
+      refine ⟨f, by simp at hf; omega, ?_⟩
+      have hp : (a :: sep').isPrefixOf (a :: (sep' ++ rest)) = true := by
+        have := isPrefixOf_self_append (a :: sep') rest
+        simpa using this
+      have hdrop : (a :: (sep' ++ rest)).drop (a :: sep').length = rest := by
+        have := List.drop_left (l₁ := a :: sep') (l₂ := rest)
+        simpa using this
+      simp only [List.nil_append, List.cons_append, splitOnF, hp, if_true, List.append_nil, hdrop]
+  | cons c p ih =>
+    intro f cur rest hne hf
+    obtain ⟨h0, hrest⟩ := hne
+    cases f with
+    | zero => omega
+    | succ f =>
+      have hpre : sep.isPrefixOf (c :: (p ++ sep ++ rest)) = false := by
+        have e : c :: (p ++ sep ++ rest) = (c :: p ++ sep) ++ rest := by simp
+        rw [e, isPrefixOf_append sep (c :: p ++ sep) rest (by simp; omega)]
+        exact h0
+      obtain ⟨f', hf', he⟩ := ih f (cur ++ [c]) rest hrest (by simp at hf ⊢; omega)
+      refine ⟨f', hf', ?_⟩
+      simp only [List.cons_append, splitOnF, hpre, Bool.false_eq_true, if_false]
+      rw [he]; simp
+
+private theorem splitOnF_last (b : Bytes) (hb : b ≠ [] ∧ 13 ∉ b) (f : Nat) (hf : 4 < f) :
+    splitOnF f (delim b) [] (B "--\r\n") = [B "--\r\n"] := by
+  obtain ⟨hne, h13⟩ := hb
+  cases b with
+  | nil => exact absurd rfl hne
+  | cons x b' =>
+    have hx : x ≠ 13 := fun e => h13 (by simp [e])
+    have e1 : delim (x :: b') = 45 :: 45 :: x :: b' := by simp [delim, B_dd]
+    rw [e1, B_last]
+    match f, hf with
+    | f + 5, _ => simp [splitOnF, List.isPrefixOf, hx]
+
+private theorem splitOn_body (b : Bytes) (hb : b ≠ [] ∧ 13 ∉ b) (parts : List (Bytes × Bytes × Bytes))
+    (hd : ∀ p ∈ parts, NoEarly (delim b) (piece p.1 p.2.1 p.2.2)) :
+    ∀ f, (bodyOf b parts).length < f →
+      splitOnF f (delim b) [] (bodyOf b parts) =
+        [] :: (parts.map (fun p => piece p.1 p.2.1 p.2.2) ++ [B "--\r\n"]) := by
+  have hsep : delim b ≠ [] := by simp [delim, B_dd]
+  -- generalise over the piece collected so far: body = pre ++ delim ++ …
+  have key : ∀ (parts : List (Bytes × Bytes × Bytes)), (∀ p ∈ parts, NoEarly (delim b) (piece p.1 p.2.1 p.2.2)) →
+      ∀ (pre : Bytes), NoEarly (delim b) pre → ∀ f, (pre ++ bodyOf b parts).length < f →
+      splitOnF f (delim b) [] (pre ++ bodyOf b parts) =
+        pre :: (parts.map (fun p => piece p.1 p.2.1 p.2.2) ++ [B "--\r\n"]) := by
+    intro parts
+    induction parts with
+    | nil =>
+      intro _ pre hpre f hf
+      have e : pre ++ bodyOf b [] = pre ++ delim b ++ B "--\r\n" := by simp [bodyOf]
+      rw [e] at hf ⊢
+      obtain ⟨f', hf', he⟩ := splitOnF_piece (delim b) hsep pre f [] (B "--\r\n") hpre hf
+      rw [he, splitOnF_last b hb f' (by have : (B "--\r\n").length = 4 := by rw [B_last]; rfl
+                                        omega)]
+      simp
+    | cons p ps ih =>
+      intro hd pre hpre f hf
+      have e : pre ++ bodyOf b (p :: ps) = pre ++ delim b ++ (piece p.1 p.2.1 p.2.2 ++ bodyOf b ps) := by simp [bodyOf]
+      rw [e] at hf ⊢
+      obtain ⟨f', hf', he⟩ := splitOnF_piece (delim b) hsep pre f [] _ hpre hf
+      rw [he, ih (fun q hq => hd q (List.mem_cons_of_mem _ hq)) _ (hd p (by simp)) f' hf']
+      simp
+  intro f hf
+  have := key parts hd [] trivial f (by simpa using hf)
+  simpa using this
+
+/-! #### bytes.splitlines -/
+private theorem splitLinesF_line (a : Bytes) : ∀ (f : Nat) (cur rest : Bytes), (∀ x ∈ a, x ≠ 10 ∧ x ≠ 13) →
+    (a ++ 13 :: 10 :: rest).length < f →
+    ∃ f', rest.length < f' ∧ splitLinesF f cur (a ++ 13 :: 10 :: rest) = (cur ++ a) :: splitLinesF f' [] rest := by
+  induction a with
+  | nil =>
+    intro f cur rest _ hf
+    cases f with
+    | zero => omega
+    | succ f =>
+      refine ⟨f, by simp at hf; omega, ?_⟩
+      simp [splitLinesF]
+  | cons x a ih =>
+    intro f cur rest hx hf
+    cases f with
+    | zero => omega
+    | succ f =>
+      obtain ⟨h10, h13⟩ := hx x (by simp)
+      obtain ⟨f', hf', he⟩ := ih f (cur ++ [x]) rest (fun y hy => hx y (List.mem_cons_of_mem _ hy)) (by simp at hf ⊢; omega)
+      refine ⟨f', hf', ?_⟩
+      simp only [List.cons_append, splitLinesF, h10, h13, if_false]
+      rw [he]; simp
+
+private theorem splitLines_lines (ls : List Bytes) (h : ∀ l ∈ ls, ∀ x ∈ l, x ≠ 10 ∧ x ≠ 13) :
+    ∀ f, (ls.flatMap (· ++ [13, 10])).length < f → splitLinesF f [] (ls.flatMap (· ++ [13, 10])) = ls := by
+  induction ls with
+  | nil => intro f hf; cases f <;> simp [splitLinesF]
+  | cons l ls ih =>
+    intro f hf
+    have e : (l :: ls).flatMap (· ++ [13, 10]) = l ++ 13 :: 10 :: ls.flatMap (· ++ [13, 10]) := by simp
+    rw [e] at hf ⊢
+    obtain ⟨f', hf', he⟩ := splitLinesF_line l f [] _ (h l (by simp)) hf
+    rw [he, ih (fun m hm => h m (List.mem_cons_of_mem _ hm)) f' hf']
+    simp
+
+/-! #### the name regex -/
+private theorem findName_skip (prev : Option UInt8) (c : UInt8) (r : Bytes) (h : c ≠ 110) :
+    findNameGo prev (c :: r) = findNameGo (some c) r := by
+  have : (B "name=\"").isPrefixOf (c :: r) = false := by
+    rw [B_name]; simp [List.isPrefixOf, Ne.symm h]
+  simp [findNameGo, this]
+
+private theorem findName_skip_n (prev : Option UInt8) (d : UInt8) (r : Bytes) (h : d ≠ 97) :
+    findNameGo prev (110 :: d :: r) = findNameGo (some 110) (d :: r) := by
+  have : (B "name=\"").isPrefixOf (110 :: d :: r) = false := by
+    rw [B_name]; simp [List.isPrefixOf, Ne.symm h]
+  simp [findNameGo, this]
+
+private theorem takeWhile_stopB (p : UInt8 → Bool) (a : Bytes) (y : UInt8) (r : Bytes) (h : ∀ x ∈ a, p x = true) (hy : p y = false) :
+    (a ++ y :: r).takeWhile p = a := by
+  induction a with
+  | nil => simp [List.takeWhile, hy]
+  | cons x a ih =>
+    simp only [List.cons_append]
+    rw [List.takeWhile_cons_of_pos (h x (by simp)), ih (fun z hz => h z (List.mem_cons_of_mem _ hz))]
+
+private theorem findName_cdLine (k : Bytes) (hne : k ≠ []) (hq : 34 ∉ k) : findNameGo none (cdLine k) = some k := by
+  have e : cdLine k = [67, 111, 110, 116, 101, 110, 116, 45, 68, 105, 115, 112, 111, 115, 105, 116, 105, 111, 110, 58, 32,
+      102, 111, 114, 109, 45, 100, 97, 116, 97, 59, 32] ++ (110 :: 97 :: 109 :: 101 :: 61 :: 34 :: (k ++ [34])) := by
+    simp [cdLine, B_cd]
+  rw [e]
+  simp only [List.cons_append, List.nil_append]
+  -- C o
+  rw [findName_skip _ 67 _ (by decide), findName_skip _ 111 _ (by decide), findName_skip_n _ 116 _ (by decide),
+    findName_skip _ 116 _ (by decide), findName_skip _ 101 _ (by decide), findName_skip_n _ 116 _ (by decide),
+    findName_skip _ 116 _ (by decide), findName_skip _ 45 _ (by decide), findName_skip _ 68 _ (by decide),
+    findName_skip _ 105 _ (by decide), findName_skip _ 115 _ (by decide), findName_skip _ 112 _ (by decide),
+    findName_skip _ 111 _ (by decide), findName_skip _ 115 _ (by decide), findName_skip _ 105 _ (by decide),
+    findName_skip _ 116 _ (by decide), findName_skip _ 105 _ (by decide), findName_skip _ 111 _ (by decide),
+    findName_skip_n _ 58 _ (by decide), findName_skip _ 58 _ (by decide), findName_skip _ 32 _ (by decide),
+    findName_skip _ 102 _ (by decide), findName_skip _ 111 _ (by decide), findName_skip _ 114 _ (by decide),
+    findName_skip _ 109 _ (by decide), findName_skip _ 45 _ (by decide), findName_skip _ 100 _ (by decide),
+    findName_skip _ 97 _ (by decide), findName_skip _ 116 _ (by decide), findName_skip _ 97 _ (by decide),
+    findName_skip _ 59 _ (by decide), findName_skip _ 32 _ (by decide)]
+  have e6 := B_name
+  have htw : (k ++ [34]).takeWhile (fun b => b != 34) = k :=
+    takeWhile_stopB _ k 34 [] (by intro x hx; have : x ≠ 34 := fun e => hq (e ▸ hx); simpa using this) (by decide)
+  unfold findNameGo
+  simp only [e6, isWordB]
+  simp [List.isPrefixOf, htw, hne]
+
+/-! #### one part, and the whole body -/
+private theorem decodePiece_piece (k v c : Bytes) (hk : k ≠ [] ∧ 34 ∉ k ∧ 10 ∉ k ∧ 13 ∉ k) (hv : 10 ∉ v ∧ 13 ∉ v)
+    (hc : 10 ∉ c ∧ 13 ∉ c) : decodePiece (piece k v c) = some (some (k, v)) := by
+  obtain ⟨hk0, hkq, hk10, hk13⟩ := hk
+  have hlines : splitLines (piece k v c) = [[], cdLine k, ctLine c, [], v, []] := by
+    unfold splitLines piece
+    apply splitLines_lines _ _ _ (Nat.lt_succ_self _)
+    intro l hl x hx
+    simp only [List.mem_cons, List.mem_singleton, List.not_mem_nil, or_false] at hl
+    have fixed1 : ∀ y ∈ B "Content-Disposition: form-data; name=\"", y ≠ 10 ∧ y ≠ 13 := by rw [B_cd]; decide
+    have fixed2 : ∀ y ∈ B "Content-Type: ", y ≠ 10 ∧ y ≠ 13 := by rw [B_ct]; decide
+    rcases hl with rfl | rfl | rfl | rfl | rfl | rfl
+    · cases hx
+    · simp only [cdLine, List.mem_append, List.mem_singleton] at hx
+      rcases hx with (hx | hx) | rfl
+      · exact fixed1 x hx
+      · exact ⟨fun e => hk10 (e ▸ hx), fun e => hk13 (e ▸ hx)⟩
+      · decide
+    · simp only [ctLine, List.mem_append] at hx
+      rcases hx with hx | hx
+      · exact fixed2 x hx
+      · exact ⟨fun e => hc.1 (e ▸ hx), fun e => hc.2 (e ▸ hx)⟩
+    · cases hx
+    · exact ⟨fun e => hv.1 (e ▸ hx), fun e => hv.2 (e ▸ hx)⟩
+    · cases hx
+  have hct : ctLine c ≠ [] := by
+    simp [ctLine, B_ct]
+  unfold decodePiece
+  rw [hlines]
+  have h2 : (([] : Bytes).take 2 ≠ B "--") := by rw [B_dd]; decide
+  simp only [List.length_cons, List.length_nil, List.headD_cons, List.drop_succ_cons, List.drop_zero]
+  simp only [show (0 + 1 + 1 + 1 + 1 + 1 + 1 > 1) from by omega, h2, ne_eq, not_false_eq_true, and_self, if_true,
+    findName_cdLine k hk0 hkq]
+  simp [indexOfEmpty, hct]
+
+private theorem collect_pieces (ps : List (Bytes × Bytes)) (tail : List (Option (Option (Bytes × Bytes))))
+    (t : List (Bytes × Bytes)) (ht : collect tail = some t) :
+    collect (ps.map (fun p => some (some p)) ++ tail) = some (ps ++ t) := by
+  induction ps with
+  | nil => simpa using ht
+  | cons p ps ih => simp [collect, ih]
+
+/-- **C34 (multipart, partial).** For every boundary (non-empty, no CR) and every list of parts whose keys are non-empty and free of
+    `"`, CR and LF, whose values (and guessed content types) are free of CR and LF, which the encoder does not refuse, and inside
+    whose written form the delimiter `--boundary` does not occur: decoding the encoded body yields the same key/value pairs in the
+    same order.  (F-C34a/b are exactly the excluded CR/LF/quote cases; F-C34c is the case where encoder and decoder use different
+    boundaries.) -/
+theorem multipart_roundtrip_partial (b : Bytes) (parts : List (Bytes × Bytes × Bytes))
+    (hb : b ≠ [] ∧ 13 ∉ b)
+    (hk : ∀ p ∈ parts, p.1 ≠ [] ∧ 34 ∉ p.1 ∧ 10 ∉ p.1 ∧ 13 ∉ p.1)
+    (hv : ∀ p ∈ parts, 10 ∉ p.2.1 ∧ 13 ∉ p.2.1)
+    (hc : ∀ p ∈ parts, 10 ∉ p.2.2 ∧ 13 ∉ p.2.2)
+    (hacc : ∀ p ∈ parts, valueIsDelim b p.2.1 = false)
+    (hd : ∀ p ∈ parts, NoEarly (delim b) (piece p.1 p.2.1 p.2.2)) :
+    ∃ body, encodeMultipart b parts = some body ∧
+      decodeMultipart b body = some (parts.map (fun p => (p.1, p.2.1))) := by
+  refine ⟨bodyOf b parts, ?_, ?_⟩
+  · unfold encodeMultipart
+    have : parts.any (fun p => valueIsDelim b p.2.1) = false := by
+      rw [List.any_eq_false]; intro p hp; simp [hacc p hp]
+    simp only [this, Bool.false_eq_true, if_false]
+    rw [join_partLines b parts (fun p hp => (hk p hp).1)]
+  · unfold decodeMultipart splitOn
+    have hsp := splitOn_body b hb parts hd ((bodyOf b parts).length + 1) (by omega)
+    have hdl : B "--" ++ b = delim b := rfl
+    rw [hdl, hsp]
+    have h0 : decodePiece [] = some none := by decide +kernel
+    have hlast : decodePiece (B "--\r\n") = some none := by decide +kernel
+    simp only [List.map_cons, List.map_append, List.map_map, List.map_nil, h0, hlast, collect]
+    have hmap : parts.map (decodePiece ∘ fun p => piece p.1 p.2.1 p.2.2) =
+        (parts.map (fun p => (p.1, p.2.1))).map (fun p => some (some p)) := by
+      rw [List.map_map]
+      apply List.map_congr_left
+      intro p hp
+      exact decodePiece_piece p.1 p.2.1 p.2.2 (hk p hp) (hv p hp) (hc p hp)
+    rw [hmap, collect_pieces _ [some none] [] (by simp [collect])]
+    simp
+
+instance instDecNoEarly (sep : Bytes) : (p : Bytes) → Decidable (NoEarly sep p)
+  | [] => isTrue trivial
+  | c :: p =>
+    have := instDecNoEarly sep p
+    inferInstanceAs (Decidable (sep.isPrefixOf (c :: p ++ sep) = false ∧ NoEarly sep p))
+
+/-- the hypotheses of `multipart_roundtrip_partial` are satisfiable (two parts, a browser-style boundary, a value containing dashes) -/
+example : ∃ body, encodeMultipart (B "----B1") [(B "a", B "x--y", B "text/plain"), (B "file", [], B "text/plain")] = some body ∧
+    decodeMultipart (B "----B1") body = some [(B "a", B "x--y"), (B "file", [])] :=
+  multipart_roundtrip_partial (B "----B1") [(B "a", B "x--y", B "text/plain"), (B "file", [], B "text/plain")]
+    (by decide +kernel) (by decide +kernel) (by decide +kernel) (by decide +kernel) (by decide +kernel) (by decide +kernel)
+
+/-- the guards are satisfiable, with two parts and a browser-style boundary -/
+example : ∃ body, encodeMultipart (B "----B1") [(B "a", B "x y", B "text/plain"), (B "file", [], B "text/plain")] = some body ∧
+    decodeMultipart (B "----B1") body = some [(B "a", B "x y"), (B "file", [])] := by
+  refine ⟨(encodeMultipart (B "----B1") [(B "a", B "x y", B "text/plain"), (B "file", [], B "text/plain")]).getD [],
+    by decide +kernel, by decide +kernel⟩
 
 /-! ### non-vacuity -/
 example : Representable [(S "a", S "b c"), (S "", S "x\"y\\z;"), (S "k", [])] := by
